@@ -474,6 +474,46 @@ example : httpHop 2 [.ok, .queueError (some 452)] = .raised .temp ∧ httpHop 2 
 
 end httphop
 
+/-! ## SMTP relay → SMTP edge → Queue (C11 ∘ C02): the hop between two hosts that speak SMTP -/
+section smtphop
+open Slimta.Relay
+
+/-- What the SMTP edge says to the end of DATA is 250, an error code, or the 421 of an exception: a reply the relay client does not
+    take for an error is a 2xx. -/
+theorem smtpSees_non_error (ws : List Write) (hw : WriteErrCodes ws) (h : isError (smtpSees (enqueue ws)) = false) :
+    smtpSees (enqueue ws) / 100 = 2 := by
+  cases he : enqueue ws with
+  | none => simp [he, smtpSees, isError] at h
+  | some rs =>
+    simp only [he, smtpSees] at h ⊢
+    cases hf : firstError rs with
+    | none => simp [smtpReply, hf, replyCode]
+    | some r =>
+      have := replyCode_error (enqueue_errcodes ws rs hw he) hf
+      simp only [smtpReply, hf, isError] at h
+      unfold ErrCode at this
+      rcases this with h4 | h5
+      · simp [h4] at h
+      · simp [h5] at h
+
+/-- **Delivered over SMTP means in custody on the other side**: for every behaviour of the receiving server up to the end of DATA, if
+    its reply to the message data is the one the SMTP edge chooses from the enqueue results (`Edge.smtpSees`), then a recipient the
+    sending relay reports delivered has its message written on the receiving host — every envelope of it. -/
+theorem smtp_hop_delivered_means_custody (cfg : Relay.Cfg) (hl : cfg.lmtp = false) (s : Script) (ws : List Write)
+    (hw : WriteErrCodes ws) (heod : s.eod = .code (smtpSees (enqueue ws))) (i : Nat)
+    (hi : C11.clsOf (attempt cfg s) i = some .ok) : ∀ w ∈ ws, w = .ok := by
+  obtain ⟨_, _, _, ⟨c, hc, hne⟩, _, _⟩ := C11.attempt_delivered_only_if_accepted cfg hl s i hi
+  rw [heod] at hc
+  simp only [Out.code.injEq] at hc
+  subst hc
+  exact queue_ack_means_all_written ws hw (Or.inl (smtpSees_non_error ws hw hne))
+
+example : C11.clsOf (attempt {} { rcpts := [.code 250, .code 250], eod := .code (smtpSees (enqueue [.ok, .ok])) }) 1 = some .ok ∧
+    C11.clsOf (attempt {} { rcpts := [.code 250, .code 250], eod := .code (smtpSees (enqueue [.ok, .queueError (some 452)])) }) 1 = some .temp := by
+  decide
+
+end smtphop
+
 /-! Non-vacuity -/
 example : smtpReply [.id, .queueError none, .id] = 451 ∧ wsgiStatus [.id, .queueError (some 552)] = 500 ∧
     smtpReply [.id, .id] = 250 := by decide
